@@ -7,7 +7,7 @@ open Gms.Proto Gms.MemTable Gms.MemTableProto
 def stmtRegion (sch : Schema) (t : List Row) (s : Stmt) (masked differ : Bool) : String :=
   if !differ then "-"
   else if regionPrintCollision sch t s then "pk_print_collision"
-  else if masked then "unique_masked_by_pending_delete"
+  else if masked then "unique_check_ignores_pending_edits"
   else if regionReplaceMulti sch t s then "replace_multi_delete_count"
   else if regionCiKey sch t s then "ci_collation_key"
   else "?"
@@ -22,7 +22,7 @@ def runHistory (sch : Schema) : List Row → List Stmt → List String → List 
     let (o', t') := specStmt sch t s
     let i := rStep o e.rows
     let sp := rStep o' t'
-    runHistory sch e.rows rest (i :: io) (sp :: so) (stmtRegion sch t s e.masked (i != sp) :: rg)
+    runHistory sch e.rows rest (i :: io) (sp :: so) (stmtRegion sch t s e.inexact (i != sp) :: rg)
 
 def pickRegion (rs : List String) : String :=
   if rs.contains "?" then "-"
